@@ -674,6 +674,11 @@ namespace chaiscript {
         return std::any_of(std::begin(t_children), std::end(t_children), [](const auto &child) { return child->children[0]->text == "this"; });
       }
 
+#ifdef CHAISCRIPT_VERIF
+      /// verification hook: the lambda body is not among get_children(); expose it for tree walks
+      const AST_Node_Impl<T> &verif_lambda_body() const noexcept { return *m_lambda_node; }
+#endif
+
     private:
       const std::vector<std::string> m_param_names;
       const bool m_this_capture = false;
